@@ -28,7 +28,7 @@ OPS = ['create', 'create_key_pair', 'register', 'rekey', 'derive_key',
        'locate', 'check', 'get', 'get_attributes', 'get_attribute_list',
        'activate', 'revoke', 'destroy', 'encrypt', 'decrypt', 'sign',
        'signature_verify', 'mac', 'set_attribute', 'modify_attribute',
-       'delete_attribute']
+       'delete_attribute', 'proxy_query', 'proxy_discover_versions']
 RULE = ('plan = client operation (21) x KMIP version (6) x scripted response '
         '(success with seeded payload values incl. all seven object types '
         'for get; or failure with a seeded reason of the full reason table '
@@ -170,6 +170,13 @@ def gen_response(r, op, ver):
             r.choice([1, 20, 32, 64]))).hex()
     elif op in ('modify_attribute', 'delete_attribute') and ver < (2, 0):
         p['attr'] = A('Name', ['mod-%d' % r.randrange(99), 1], 0)
+    elif op == 'proxy_query':
+        p['operations'] = r.sample([1, 2, 3, 8, 10, 11, 12, 18, 19, 20, 24,
+                                    30, 31, 32], r.randint(0, 8))
+        p['vendor'] = r.choice([None, 'Vendor-%d' % r.randrange(99)])
+    elif op == 'proxy_discover_versions':
+        p['versions'] = [list(v) for v in r.sample(gen.VERSIONS,
+                                                    r.randint(0, 6))]
     elif op == 'check':
         pass
     return p
@@ -180,8 +187,9 @@ OPNUM = {'create': 1, 'create_key_pair': 2, 'register': 3, 'rekey': 4,
          'get_attributes': 11, 'get_attribute_list': 12, 'activate': 18,
          'revoke': 19, 'destroy': 20, 'encrypt': 31, 'decrypt': 32,
          'sign': 33, 'signature_verify': 34, 'mac': 35, 'set_attribute': 49,
-         'modify_attribute': 14, 'delete_attribute': 15}
-MIN_VER = {'encrypt': (1, 2), 'decrypt': (1, 2), 'sign': (1, 2),
+         'modify_attribute': 14, 'delete_attribute': 15, 'proxy_query': 24,
+         'proxy_discover_versions': 30}
+MIN_VER = {'proxy_discover_versions': (1, 1), 'encrypt': (1, 2), 'decrypt': (1, 2), 'sign': (1, 2),
            'signature_verify': (1, 2), 'mac': (1, 2),
            'set_attribute': (2, 0)}
 
@@ -235,6 +243,16 @@ def payload_nodes(op, p, ver):
         if not v2 and p.get('attr'):
             out.append(reqs.attr_v1(p['attr']))
         return out
+    if op == 'proxy_query':
+        out = [E(TAG['OPERATION'], o) for o in p['operations']]
+        if p.get('vendor') is not None:
+            out.append(T(TAG['VENDOR_IDENTIFICATION'], p['vendor']))
+        return out
+    if op == 'proxy_discover_versions':
+        return [S(TAG['PROTOCOL_VERSION'],
+                  I(TAG['PROTOCOL_VERSION_MAJOR'], a),
+                  I(TAG['PROTOCOL_VERSION_MINOR'], b))
+                for a, b in p['versions']]
     raise ValueError(op)
 
 
@@ -318,6 +336,12 @@ def invoke(c, op, ver, r_args):
     if op == 'mac':
         return c.mac(b'data', uid=uid,
                      algorithm=enums.CryptographicAlgorithm.HMAC_SHA256)
+    if op == 'proxy_query':
+        return proxy_result(c.proxy.query(query_functions=[
+            enums.QueryFunction.QUERY_OPERATIONS,
+            enums.QueryFunction.QUERY_SERVER_INFORMATION]))
+    if op == 'proxy_discover_versions':
+        return proxy_result(c.proxy.discover_versions())
     fac = af.AttributeFactory()
     if op == 'set_attribute':
         return c.set_attribute(unique_identifier=uid,
@@ -346,9 +370,35 @@ def invoke(c, op, ver, r_args):
     raise ValueError(op)
 
 
+class ProxyFailure(Exception):
+    """KMIPProxy methods report failures in the result object; the
+    harness turns that into the same shape as an operation failure."""
+
+    def __init__(self, status, reason, message):
+        Exception.__init__(self, message)
+        self.status, self.reason, self.message = status, reason, message
+
+
+def proxy_result(res):
+    import enum
+    ev = lambda x: getattr(x, 'value', x)
+    st = ev(res.result_status)
+    if st != enum.Enum and getattr(st, 'value', st) != 0:
+        raise ProxyFailure(ev(res.result_status), ev(res.result_reason),
+                           ev(res.result_message))
+    return res
+
+
 def project(op, ver, res):
     """Client return value -> comparable JSON value."""
     import enum
+    if op == 'proxy_query':
+        ops = [getattr(getattr(o, 'value', o), 'value',
+                       getattr(o, 'value', o)) for o in res.operations or []]
+        vend = res.vendor_identification
+        return [ops, getattr(vend, 'value', vend)]
+    if op == 'proxy_discover_versions':
+        return [[v.major, v.minor] for v in res.protocol_versions or []]
     if op in ('create', 'register', 'rekey', 'derive_key', 'check',
               'set_attribute'):
         return res
@@ -381,6 +431,10 @@ def project(op, ver, res):
 
 
 def expected(op, ver, p):
+    if op == 'proxy_query':
+        return [list(p['operations']), p.get('vendor')]
+    if op == 'proxy_discover_versions':
+        return [list(v) for v in p['versions']]
     if op in ('create', 'register', 'rekey', 'derive_key', 'check',
               'set_attribute'):
         return p['uid']
